@@ -254,6 +254,27 @@ def run(model: Model, rep: Report) -> None:
     # ----------------------------------------------------------------- R7
     _keyword_values(model, rep)
 
+    # ----------------------------------------------------------------- R8
+    r8 = rep.rule("C01-R8", "DEPEND", "name interning: the table is keyed by the name itself, so distinct names (str vs bytes, different bytes) never share an entry", 2)
+    it = model.func("pdfminer.psparser.PSSymbolTable.intern")
+    pname = it.params[1] if len(it.params) > 1 else "name"
+    keys = []
+    for n in walk_no_nested(it.node):
+        if isinstance(n, ast.Subscript) and unparse(n.value) == "self.dict":
+            keys.append((n, n.slice))
+        elif isinstance(n, ast.Compare) and len(n.ops) == 1 and isinstance(n.ops[0], (ast.In, ast.NotIn)) and unparse(n.comparators[0]) == "self.dict":
+            keys.append((n, n.left))
+        elif isinstance(n, ast.Call) and isinstance(n.func, ast.Attribute) and unparse(n.func.value) == "self.dict" and n.func.attr in ("get", "setdefault", "pop") and n.args:
+            keys.append((n, n.args[0]))
+    if not keys:
+        from ..model import AnchorMissing
+
+        raise AnchorMissing("PSSymbolTable.intern: no access to self.dict found")
+    for node, k in keys:
+        r8.check(isinstance(k, ast.Name) and k.id == pname, site(it, node), it.qualname, f"`{unparse(node)[:50]}`: key is the name as given", why=f"the table is indexed by `{unparse(k)}`, a transformation of the name: two different names with the same image (b'Caf\\xe9' and 'Caf\u00e9') get one symbol, and whichever was read first in the process is returned for both")
+    ctor = [c for c in walk_no_nested(it.node) if isinstance(c, ast.Call) and unparse(c.func) == "self.klass"]
+    r8.check(len(ctor) == 1 and len(ctor[0].args) == 1 and unparse(ctor[0].args[0]) == pname, site(it), it.qualname, "a new symbol is built from the name as given", why="constructor argument changed")
+
     # ----------------------------------------------------------------- R6
     r6 = rep.rule("C01-R6", "TYPESTATE", "scanner state hygiene: every field a scanner reads is initialised on every way into it; reference automaton", 20)
     seek = model.func(BASE + ".seek")
